@@ -394,6 +394,34 @@ let handle (line : string) : string =
             Buffer.add_string b " WRITTEN "; Buffer.add_string b (tok_of_bytes o.so_written);
             Buffer.add_string b (Printf.sprintf " CONSUMED %d" (total - List.length (all_bytes o.so_rs)))
         | None -> Buffer.add_string b "OUTOFFUEL")
+   | "CL" ->
+       let _ = next t in
+       let n = next_int t in
+       let st = ref init in
+       let inflight : n option ref = ref None in      (* hop id of the send blocked in its write, not yet on the wire *)
+       let drain () =
+         let k = List.length !st.inq in
+         for _ = 1 to k do st := step !st ReaderStep done in
+       let apply e = st := step !st e; drain () in
+       let wire () = (match !inflight with Some h -> inflight := None; apply (WireOut h) | None -> ()) in
+       for _ = 1 to n do
+         (match next t with
+          | "R" -> wire (); let h = next_n t in apply (Register h); inflight := Some h
+          | "G" -> let k = int_of_string ("0x" ^ next t) in if k > 0 then wire ()
+          | "W" -> wire ()
+          | "P" -> let h = next_n t in apply (Peer h)
+          | "PS" -> let h = next_n t in let _ = next t in apply (Peer h)
+          | "PT" -> let _ = next t in let _ = next t in ()
+          | "B" -> let _ = next t in apply PeerBad
+          | s -> raise (Parse ("client event " ^ s)))
+       done;
+       wire ();
+       Buffer.add_string b "CL";
+       List.iter (fun w -> match w with
+         | WGot f -> Buffer.add_string b (" GOT:" ^ hex_of_n f.hop0 ^ ":" ^ Printf.sprintf "%x" (int_of_nat f.fid))
+         | WDropped -> Buffer.add_string b " ERR"
+         | WPending0 -> Buffer.add_string b " PENDING") (outcomes !st);
+       Buffer.add_string b (if !st.closed then " READER stopped" else " READER alive")
    | "X" ->
        let ds = get_dict (next t) in
        let bs = next_bytes t in
